@@ -4,14 +4,40 @@
 (* variable that records, per step, the action, the goroutine role that    *)
 (* performs it, the verifhook point at which that goroutine parks          *)
 (* afterwards, and the observable state of the real client after the step  *)
-(* (queue lengths, latches, completions).  Run with -simulate: when a      *)
-(* behaviour can no longer continue, Finish prints it as one JSON line.    *)
+(* (queue lengths, latches, completions) and the named windows of Upstream *)
+(* that hold after the step.  Run with -simulate: when a behaviour can no  *)
+(* longer continue, Finish prints it as one JSON line                      *)
+(* [at |-> stratum of the fault point, steps |-> history]; checks/c02.py   *)
+(* draws a mandatory stratum of behaviours per named window from them.     *)
 (***************************************************************************)
 EXTENDS Upstream, Json
 
-VARIABLES hist, finished
+CONSTANT FaultPoints   \* the strata of the fault point (see FaultPoint); {"any"} = unconstrained
 
-gvars == <<vars, hist, finished>>
+VARIABLES hist, finished,
+          fat          \* the stratum of this behaviour: where the fault strikes (chosen in the initial state)
+
+gvars == <<vars, hist, finished, fat>>
+
+(***************************************************************************)
+(* Stratification of the fault point.  The property quantifies over every  *)
+(* point at which the backend connection can be stopped or lost; uniform   *)
+(* simulation puts the fault early in most behaviours and almost never     *)
+(* into the narrow windows.  A behaviour of stratum f closes the quit      *)
+(* latch through Stop (StopQuit), or breaks the connection (BackendReset), *)
+(* only in a state that satisfies FaultPoint(f).                           *)
+(***************************************************************************)
+FaultPoint(f) ==
+  CASE f = "any"                -> TRUE
+    [] f = "reader-holds-reply" -> rd = "decoded" /\ proc = <<>>            \* a decoded reply, nothing to pair it with yet
+    [] f = "writer-handoff"     -> w = "handoff"                           \* the writer holds a request, in neither queue
+    [] f = "writer-ask"         -> w = "have" /\ wreq \in Asking           \* ... about to hand the ASKING placeholder over
+    [] f = "writer-got"         -> w = "have"                              \* ... about to encode and flush
+    [] f = "sender-checked"     -> \E r \in Reqs : spc[r] = "checked"      \* a sender past the quit check, not yet enqueued
+    [] f = "sender-after-drain" -> \E r \in Reqs : spc[r] = "checked"      \* ... and held there until Start has drained
+    [] f = "queues-loaded"      -> pend # <<>> /\ proc # <<>>              \* requests queued and requests in flight
+    [] f = "reader-paired"      -> rd = "paired"                           \* the reader holds a request and its reply
+    [] OTHER                    -> FALSE
 
 SenderGate(r) ==
   CASE spc[r] = "send"      -> "client.Send"
@@ -23,6 +49,7 @@ SenderGate(r) ==
 WriterGate ==
   CASE w = "select"  -> "client.loopWrite.select"
     [] w = "have"    -> "client.loopWrite.got"
+    [] w = "asked"   -> "client.loopWrite.asked"
     [] w = "handoff" -> "client.loopWrite.handoff"
     [] OTHER         -> ""
 
@@ -46,6 +73,21 @@ StopGate ==
 Obs == [pend |-> Len(pend), proc |-> Len(proc), quit |-> quit, done |-> done,
         compl |-> compl, res |-> res]
 
+\* the named windows of Upstream that hold in the current state (the check draws a mandatory stratum of behaviours per window)
+WindowNames == <<"W_CheckedThenQuit", "W_EnqueueAfterDrain", "W_WriterHandoffQuit", "W_ReaderWaitsForHandoff",
+                 "W_SenderBlockedOnDeadQueue", "W_AskHandoffQuit", "W_AskHandoffBlocked", "W_ReaderHoldsReplyAtQuit">>
+WindowHolds(n) ==
+  CASE n = "W_CheckedThenQuit"          -> W_CheckedThenQuit
+    [] n = "W_EnqueueAfterDrain"        -> W_EnqueueAfterDrain
+    [] n = "W_WriterHandoffQuit"        -> W_WriterHandoffQuit
+    [] n = "W_ReaderWaitsForHandoff"    -> W_ReaderWaitsForHandoff
+    [] n = "W_SenderBlockedOnDeadQueue" -> W_SenderBlockedOnDeadQueue
+    [] n = "W_AskHandoffQuit"           -> W_AskHandoffQuit
+    [] n = "W_AskHandoffBlocked"        -> W_AskHandoffBlocked
+    [] n = "W_ReaderHoldsReplyAtQuit"   -> W_ReaderHoldsReplyAtQuit
+    [] OTHER                            -> FALSE
+Wins == {WindowNames[i] : i \in {j \in 1..Len(WindowNames) : WindowHolds(WindowNames[j])}}
+
 \* role: "S" (sender of request r), "W", "R", "X", "env"
 Gate(role, r) ==
   CASE role = "S" -> SenderGate(r)
@@ -55,36 +97,55 @@ Gate(role, r) ==
     [] OTHER      -> ""
 
 Log(a, role, r) ==
-  hist' = Append(hist, [a |-> a, role |-> role, r |-> r, next |-> Gate(role, r)', obs |-> Obs'])
+  hist' = Append(hist, [a |-> a, role |-> role, r |-> r, next |-> Gate(role, r)', obs |-> Obs', win |-> Wins'])
 
 \* after an environment action the goroutine it wakes parks at its first point
 LogEnv(a, r, wakes) ==
   hist' = Append(hist, [a |-> a, role |-> "env", r |-> r, wakes |-> wakes,
-                        next |-> Gate(wakes, r)', obs |-> Obs'])
+                        next |-> Gate(wakes, r)', obs |-> Obs', win |-> Wins'])
 
-GenInit == Init /\ hist = <<>> /\ finished = FALSE
+GenInit == Init /\ hist = <<>> /\ finished = FALSE /\ fat \in FaultPoints
 
 Finish ==
   /\ ~finished /\ Stuck /\ \A r \in Reqs : spc[r] # "idle"
-  /\ PrintT("@@BEH " \o ToJson(hist))
+  /\ PrintT("@@BEH " \o ToJson([at |-> fat, steps |-> hist]))
   /\ finished' = TRUE
-  /\ UNCHANGED <<vars, hist>>
+  /\ UNCHANGED <<vars, hist, fat>>
+
+\* in a stratum other than "any" Stop is called first (the stopper parks in front of the quit latch) and the fault
+\* strikes as soon as the fault point is reached
+Armed == fat # "any" /\ FaultPoint(fat) /\ (stp = "stop" \/ ENABLED BackendReset)
+
+\* stratum "reader-holds-reply": the writer is slow at its hand-over while the answer to the request in its hand is on
+\* its way, so that the reader decodes a reply it cannot pair yet
+HeldAtHandoff ==
+  fat = "reader-holds-reply" /\ ~quit /\ connOpen /\ proc = <<>> /\ (wire # <<>> \/ replies # <<>>)
+
+\* stratum "sender-after-drain": a sender that has passed the quit check is slow until Start has finished its drain
+HeldAtEnqueue == fat = "sender-after-drain" /\ quit /\ main \notin {"drained", "done"}
 
 GenNext ==
   /\ ~finished
-  /\ \/ \E r \in Reqs :
+  /\ IF fat # "any" /\ stp = "idle" /\ WithStop
+       THEN CallStop /\ LogEnv("CallStop", "", "X")
+       ELSE IF Armed
+       THEN \/ StopQuit /\ Log("StopQuit", "X", "")
+            \/ BackendReset /\ LogEnv("BackendReset", "", "R")
+       ELSE
+     \/ \E r \in Reqs :
           \/ CallSend(r) /\ LogEnv("CallSend", r, "S")
           \/ SendCheck(r) /\ Log("SendCheck", "S", r)
-          \/ SendEnqueue(r) /\ Log("SendEnqueue", "S", r)
+          \/ SendEnqueue(r) /\ ~HeldAtEnqueue /\ Log("SendEnqueue", "S", r)
           \/ SendRecheck(r) /\ Log("SendRecheck", "S", r)
           \/ SendDrainTake(r) /\ Log("SendDrainTake", "S", r)
           \/ SendDrainAnswer(r) /\ Log("SendDrainAnswer", "S", r)
      \/ WriterSelect /\ Log("WriterSelect", "W", "")
      \/ WriterFiltered /\ Log("WriterFiltered", "W", "")
+     \/ WriterAsk /\ Log("WriterAsk", "W", "")
      \/ WriterEncode /\ Log("WriterEncode", "W", "")
-     \/ WriterHandoff /\ Log("WriterHandoff", "W", "")
+     \/ WriterHandoff /\ ~HeldAtHandoff /\ Log("WriterHandoff", "W", "")
      \/ BackendReply /\ LogEnv("BackendReply", "", "R")
-     \/ BackendReset /\ LogEnv("BackendReset", "", "R")
+     \/ BackendReset /\ fat = "any" /\ LogEnv("BackendReset", "", "R")
      \/ ReaderDecode /\ Log("ReaderDecode", "R", "")
      \/ ReaderPair /\ Log("ReaderPair", "R", "")
      \/ ReaderHandle /\ Log("ReaderHandle", "R", "")
@@ -94,10 +155,10 @@ GenNext ==
      \/ MainDrainAnswer /\ Log("MainDrainAnswer", "R", "")
      \/ MainDone /\ Log("MainDone", "R", "")
      \/ CallStop /\ LogEnv("CallStop", "", "X")
-     \/ StopQuit /\ Log("StopQuit", "X", "")
+     \/ StopQuit /\ fat = "any" /\ Log("StopQuit", "X", "")
      \/ StopClose /\ Log("StopClose", "X", "")
      \/ StopReturn /\ Log("StopReturn", "X", "")
-  /\ UNCHANGED finished
+  /\ UNCHANGED <<finished, fat>>
 
 GenSpec == GenInit /\ [][GenNext \/ Finish]_gvars
 =============================================================================
